@@ -829,6 +829,7 @@ func c03(c *Ctx) {
 	c.Rule("C03.R2a", "witnesses of the assumptions used by R2: lexer next() shape, state entry conditions, frame of input/len, invariant establishment and preservation, ReadBatch contract, declared preconditions at call sites", 8, func(r *Rule) {
 		lexerStageA(c, r, e)
 		readBatchContract(c, r)
+		runOutputContract(c, r)
 		lemmaWitnesses(c, r, "C03")
 		preconditionRule(c, r, e, inScope)
 	})
@@ -1178,4 +1179,71 @@ func exprString0(in ssa.Instruction) string {
 		return exprString(v, 0)
 	}
 	return in.String()
+}
+
+// runOutputContract: witness of the allow-listed abort in handleDatagram ("both event and metric are
+// nil"): whenever (*Lexer).Run returns neither a metric nor an event, the error it returns is
+// non-nil on that path.
+func runOutputContract(c *Ctx, r *Rule) {
+	w := c.W
+	run := w.Func(lexPkg, "(*Lexer).Run")
+	if run == nil {
+		r.Unresolved("(*Lexer).Run")
+		return
+	}
+	var nonNil func(v ssa.Value, facts []canonCond, d int) bool
+	nonNil = func(v ssa.Value, facts []canonCond, d int) bool {
+		if d > 6 {
+			return false
+		}
+		if knownNonNil(facts, func(x ssa.Value) bool { return x == v }) {
+			return true
+		}
+		switch x := v.(type) {
+		case *ssa.UnOp:
+			// a package-level error value (errNaN, errInvalidType, ...) initialised once with a fresh error
+			if g, ok := x.X.(*ssa.Global); ok && x.Op == token.MUL {
+				if iv := globalInitValue(w, g); iv != nil {
+					if cl, ok := iv.(*ssa.Call); ok && (isCall(cl, "errors.New") || strings.HasPrefix(calleeName(cl), "fmt.Errorf")) {
+						return true
+					}
+				}
+			}
+			// a load of l.err (or a local holding it) where the same location was tested non-nil
+			p := pathOf(x)
+			if p != "" && knownNonNil(facts, func(y ssa.Value) bool { return pathOf(y) == p }) {
+				return true
+			}
+		case *ssa.MakeInterface:
+			return true
+		case *ssa.Call:
+			if isCall(x, "errors.New") || strings.HasPrefix(calleeName(x), "fmt.Errorf") {
+				return true
+			}
+		}
+		return false
+	}
+	n := 0
+	eachInstr(run, func(in ssa.Instruction) {
+		rt, ok := in.(*ssa.Return)
+		if !ok || len(rt.Results) != 3 {
+			return
+		}
+		if !isNilConst(rt.Results[0]) || !isNilConst(rt.Results[1]) {
+			return
+		}
+		n++
+		okAll := true
+		for _, vc := range valueCases(rt.Results[2], rt.Block()) {
+			var facts []canonCond
+			for _, cd := range vc.Conds {
+				facts = append(facts, canonOf(cd))
+			}
+			if !nonNil(vc.V, facts, 0) {
+				okAll = false
+			}
+		}
+		r.Check(fmt.Sprintf("Run:no-output-means-error#%d", n), okAll, rt.Pos(), "a return of (nil, nil, err) carries a non-nil error (handleDatagram aborts on a line that is neither metric, event nor error)")
+	})
+	r.Check("Run:error-returns", n >= 1, run.Pos(), fmt.Sprintf("%d returns without metric or event", n))
 }
